@@ -4,7 +4,7 @@ PID = 'C02'
 TRUSTED = TRUSTED_COMMON + ['the release/acquire reading of shared_ptr: the relaxed use_count load followed by an acquire fence synchronizes with the acq_rel decrement of the writer that dropped its reference']
 ASSUMPTIONS = ['"the first consume that starts after the writer\'s last call returned" is read as: the consumer\'s loads read the newest stores (a happens-before edge exists); '
                'for a closed channel the fence provides it, which is the theorem',
-               'per-writer order across replaced channels: theorems give per-channel FIFO, polling in creation order, replacement channel last, abandoned queue found closed / drained / removed by the very next consume and gone afterwards; the output of one consume is the concatenation of one piece per polled channel with strictly increasing uids (C02_consume_writes_channels_in_creation_order); what remains outside the theorems is only the final assembly of these five statements into one sentence about a writer\'s events in the concatenation of ALL consume outputs (the model carries no writer-attribution ghost for bytes), which the in-order oracle checks on the implementation']
+               'per-writer order across replaced channels: theorems give per-channel FIFO, polling in creation order, replacement channel last, abandoned queue found closed / drained / removed by the very next consume and gone afterwards; the output of one consume is the concatenation of one piece per polled channel with strictly increasing uids (C02_consume_writes_channels_in_creation_order); and no later consume writes a piece for a channel closed before an earlier consume (C02_abandoned_queue_never_written_again); what remains outside the theorems is only the final assembly of these statements into one sentence about a writer\'s events in the concatenation of ALL consume outputs (the model carries no writer-attribution ghost for bytes), which the in-order oracle checks on the implementation']
 RULE = ('histories as in C11 (capacities from 24 bytes: smaller than one event, forcing replaceChannel with any event size), writers closed immediately after logging, also INSIDE a consume '
         'between the closed test and the poll; reads-from choices incl. stale; (a) model vs real headers; (b) implementation alone on histories ending in two quiescent consumes: every accepted '
         'event delivered exactly once, events of each writer in the order produced; never twice in any history; a directed history replays the stale-read schedule of the D7 finding. '
